@@ -184,6 +184,7 @@ func (fc *FnCtx) havoc(st *State, ts []WTarget) {
 
 // frameTargets of the function under verification (evaluated at entry).
 func (fc *FnCtx) myTargets() ([]WTarget, bool) {
+	fc = fc.root()
 	if fc.con == nil {
 		return nil, true
 	}
@@ -244,7 +245,7 @@ func (fc *FnCtx) allowedWrite(region string, idx []Term, row bool, lo, hi Term) 
 
 // frameCheck emits the frame obligation for a store through p of a value of type T.
 func (fc *FnCtx) frameCheck(p Val, T types.Type, in ssa.Instruction, st *State) {
-	if fc.con == nil || fc.inline && fc.con == nil {
+	if fc.root().con == nil {
 		return
 	}
 	if _, anyOK := fc.myTargets(); anyOK {
@@ -279,7 +280,7 @@ func (fc *FnCtx) frameCheck(p Val, T types.Type, in ssa.Instruction, st *State) 
 }
 
 func (fc *FnCtx) frameCheckTargets(ts []WTarget, what string, in ssa.Instruction) {
-	if fc.con == nil {
+	if fc.root().con == nil {
 		return
 	}
 	if _, anyOK := fc.myTargets(); anyOK {
@@ -738,7 +739,7 @@ func (fc *FnCtx) copyBuiltin(dst, src Val, in ssa.Instruction, st *State, resT t
 	for _, lf := range cellLeaves(et) {
 		name := "elem<" + leafTypeName(et) + ">" + lf.suffix
 		reg := vc.region(st, name, 2, leafSort(lf.kind))
-		if fc.con != nil {
+		if fc.root().con != nil {
 			if _, anyOK := fc.myTargets(); !anyOK {
 				g := or(eq(n, "0"), fc.allowedWrite(name, []Term{dst.Sl.Base}, false, dst.Sl.Off, plus(dst.Sl.Off, n)))
 				if g != "true" {
